@@ -132,6 +132,20 @@ Proof.
 Qed.
 Print Assumptions C01_rq_whole_spline_logabsdet_is_log_derivative.
 
+(* ---- the WHOLE piecewise-quadratic spline likewise (both height forms): its piecewise-linear density is continuous across the
+   knots - the neighbouring bins share the node height there - so the spline is differentiable at every interior point of the
+   box, knots included, and the returned log-abs-det is the logarithm of that derivative ---- *)
+From NF Require Import Model.SplineQuadratic Proofs.SplineQuadWhole.
+Theorem C01_quadratic_whole_spline_logabsdet_is_log_derivative :
+  forall (minw minh : R) (bx : @box R) (uw uh : list R),
+  uw <> nil -> (length uh = S (length uw) \/ (length uh = Nat.sub (length uw) 1 /\ Peano.le 2 (length uw))) ->
+  0 <= minw -> minw * INR (length uw) <= 1 -> 0 <= minh -> minh * INR (length uw) <= 1 ->
+  b_left bx < b_right bx -> b_bottom bx < b_top bx ->
+  forall x, b_left bx < x < b_right bx ->
+    is_derive (QF minw minh bx uw uh) x (exp (QFlad minw minh bx uw uh x)) /\ 0 < exp (QFlad minw minh bx uw uh x).
+Proof. intros minw minh bx uw uh H1 H2 H3 H4 H5 H6 H7 H8 x Hx. exact (quadratic_whole_derivative minw minh bx uw uh H1 H2 H3 H4 H5 H6 H7 H8 x Hx). Qed.
+Print Assumptions C01_quadratic_whole_spline_logabsdet_is_log_derivative.
+
 (* ---- LogTanh (constants and pieces as generated): the logarithmic tails meet the tanh piece at the cut point, have the
    positive slope alpha / |x|, and the returned log-abs-det is the logarithm of that slope; the inverse tails undo them ---- *)
 From NF Require Import Proofs.LogTanhP.
